@@ -152,7 +152,7 @@ var c04Offers = []string{"application/json", "application/protobuf", "applicatio
 
 // admitted lists the registered response types some Accept range with q>0 admits.
 func admitted(accept string) (offers []string, dubious bool) {
-	rs := refParseAccept(accept)
+	rs := refParseAccept(strings.ReplaceAll(accept, "\n", ", "))
 	for _, o := range c04Offers {
 		ok := false
 		for _, r := range rs {
@@ -179,7 +179,10 @@ func (e *c04Env) exec(tc *c04Case) (oracle, note string) {
 		hdr.Set("Content-Type", tc.ReqCT)
 	}
 	if tc.Accept != "" {
-		hdr.Set("Accept", tc.Accept)
+		// "\n" separates header lines: several Accept lines mean the same as one comma-joined line
+		for _, line := range strings.Split(tc.Accept, "\n") {
+			hdr.Add("Accept", line)
+		}
 	}
 	if tc.AcceptEnc != "" {
 		hdr.Set("Accept-Encoding", tc.AcceptEnc)
@@ -431,6 +434,9 @@ func c04Accepts() []string {
 			}
 		}
 	}
+	// the same ranges on several header lines (RFC 9110 5.3: equivalent to one comma-joined line)
+	out = append(out, "text/html\napplication/protobuf", "\napplication/protobuf", "image/png;q=0.9\ntext/*\napplication/json;q=0.5", "application/json;q=0\napplication/protobuf",
+		"junk\napplication/x-rev", "text/plain\n*/*;q=0.1", "application/protobuf\napplication/json", "application/json\napplication/protobuf")
 	out = append(out, "application/json;q=abc", ",", ";", "application/json;level=1;q=0.2, */*;q=0.1", "APPLICATION/JSON",
 		"application/json; charset=utf-8", "application/json;charset=utf-8;q=0.9, application/protobuf;q=0.1", "application/protobuf; a=b", "application/protobuf ; a=b ; q=0.3 , text/plain")
 	return out
@@ -532,7 +538,7 @@ func c04Cases(e *c04Env, thorough bool) []c04Case {
 
 func runC04(c *Ctx) {
 	r := c.Run
-	r.Rule("reply{empty, each field kind with a boundary value, maps/struct/any/repeated messages, all kinds at once, 64KiB} × request Content-Type{none,json,protobuf,octet-stream,unregistered, a custom codec registered with CodecOption} × Accept{every list of <= 2 ranges from {json,protobuf,octet-stream,the custom codec,application/*,*/*,text/plain,junk,google.api.HttpBody} × q{none,0,0.5,1}, plus malformed} × Accept-Encoding{none,gzip,identity,*,gzip;q=0,junk,list,a content type}; response_body selector; handlers that call grpc.SendHeader before replying; google.api.HttpBody replies (4 content types × 4 sizes incl. JSON-looking bytes); a retained HttpBody reply (cached asset, 3 sizes) served 8 times on one mux with other requests in between; distinct = (method, reply, request type, Accept class, Accept-Encoding); thorough adds the full cross reply × request type × every Accept list × Accept-Encoding{none,gzip,gzip;q=0,*} × SendHeader{no,yes}, and every Accept list on HttpBody and response_body replies")
+	r.Rule("reply{empty, each field kind with a boundary value, maps/struct/any/repeated messages, all kinds at once, 64KiB} × request Content-Type{none,json,protobuf,octet-stream,unregistered, a custom codec registered with CodecOption} × Accept{every list of <= 2 ranges from {json,protobuf,octet-stream,the custom codec,application/*,*/*,text/plain,junk,google.api.HttpBody} × q{none,0,0.5,1}, plus malformed, plus ranges spread over several Accept header lines} × Accept-Encoding{none,gzip,identity,*,gzip;q=0,junk,list,a content type}; response_body selector; handlers that call grpc.SendHeader before replying; google.api.HttpBody replies (4 content types × 4 sizes incl. JSON-looking bytes); a retained HttpBody reply (cached asset, 3 sizes) served 8 times on one mux with other requests in between; distinct = (method, reply, request type, Accept class, Accept-Encoding); thorough adds the full cross reply × request type × every Accept list × Accept-Encoding{none,gzip,gzip;q=0,*} × SendHeader{no,yes}, and every Accept list on HttpBody and response_body replies")
 	r.Assume("which admitted type is chosen and q=0 exclusions of a more specific range are not demanded", "a request with an unregistered content type and a body may be refused")
 	e0 := newC04Env()
 	cases := c04Cases(e0, c.Thorough())
